@@ -326,6 +326,10 @@ class Execution:
             elif op == "rspver":
                 self.by_id[step["s"]]["rspver"] += 1
                 self.write_manifest()
+            elif op == "verback":
+                self.by_id[step["s"]]["ver"] = 1
+                self.by_id[step["s"]]["rspver"] = 1
+                self.write_manifest()
             elif op == "droplog":
                 try:
                     os.remove(self.p(".ninja_log"))
